@@ -8,9 +8,12 @@ one() {
   d=$(mktemp -d /tmp/cc-XXXX); rsync -a --exclude .git /repo/ $d/
   (cd $d && patch -p1 -s < $m/patch.diff) || { echo "$id PATCH-FAILED"; rm -rf $d; return; }
   arch=$(jq -r '.demo_env.DEMO_GOARCH // empty' $m/meta.json)
-  fired=$(GOARCH=${arch:-$(go env GOARCH)} ${UTILCHECK:-/verif/bin/utilcheck} -repo $d -prop all -no-evidence 2>&1 | grep -a '^VIOLATION' | sed 's/VIOLATION property=\([A-Z0-9]*\).*/\1/' | sort -u | tr '\n' ' ')
+  out=$(GOARCH=${arch:-$(go env GOARCH)} ${UTILCHECK:-/verif/bin/utilcheck} -repo $d -prop all -no-evidence 2>&1)
+  fired=$(echo "$out" | grep -a '^VIOLATION' | sed 's/VIOLATION property=\([A-Z0-9]*\).*/\1/' | sort -u | tr '\n' ' ')
+  # a checker-level failure (analyser panic, load error) is not a verdict: shown apart
+  broken=$(echo "$out" | grep -a '^BROKEN' | sed 's/BROKEN property=\([A-Z0-9]*\).*/\1/' | sort -u | tr '\n' ' ')
   rm -rf $d
-  echo "$id $kind $prop | fired: ${fired:-NONE}"
+  echo "$id $kind $prop | fired: ${fired:-NONE}${broken:+ | CHECKER-BROKEN: $broken}"
 }
 export -f one
 ls /verif/seeded | grep "${2:-.}" | xargs -P ${1:-6} -n 1 bash -c 'one "$0"' | sort
